@@ -3,14 +3,14 @@ from props._common import *  # noqa
 ID = 'C04'
 LEVEL = 'proof'
 FUNCTIONS = HUB + [M + 'match', M + 'select', M + 'closest', M + 'filter']
-TRUSTED = [A_PY, A_BS4, A_IR, A_SMT, OPAQUE_NOTE]
+TRUSTED = [A_PY, A_BS4, A_IR, A_SMT, OPAQUE_NOTE, A_INDET, A_SINGLE]
 ASSUMPTIONS = TRUSTED
 EXPLANATION = ('Every proved matcher contract has a postcondition that mentions only the pure function sem of (selector, tree, target), and the hub proof '
                'includes the frame obligations that self.namespaces and self.iframe_restrict equal their entry values on every path.')
 LEVEL_TEXT = EXPLANATION
 TIMEOUT_MS = {'quick': 20000, 'thorough': 120000}
 MUSTFAIL_PER_FN = {'quick': 1, 'thorough': 6}
-BOUNDED = [hub_bounded('C04-history-and-tree', ['basic', 'forms', 'lang', 'iframe', 'attrs', 'identical', 'plain', 'ns', 'api'], ['core', 'html', 'lang'])]
+BOUNDED = [hub_bounded('C04-history-and-tree', ['basic', 'forms', 'lang', 'iframe', 'attrs', 'identical', 'plain', 'ns', 'xforms', 'api'], ['core', 'html', 'lang'])]
 
 
 def _f2(ctx):
@@ -22,14 +22,16 @@ STRUCTURAL = [_f2]
 
 VALIDATION = [validate_bs4]
 
-FUNCTIONS = FUNCTIONS + [q for q in CACHE + LANG if q not in FUNCTIONS]
+FUNCTIONS = FUNCTIONS + [q for q in CACHE + LANG + INDET if q not in FUNCTIONS]
+STRUCTURAL = (globals().get('STRUCTURAL') or []) + [indet_structural]
 SHARDS = dict(SHARDS)
 
 FUNCTIONS = FUNCTIONS + [q for q in (M + '__init__', M + 'match_nth', M + 'match_subselectors', M + 'match_past_relations', M + 'match_future_child',
                                      M + 'match_future_relations', M + 'match_relations') if q not in FUNCTIONS]
 EXPLANATION = ('Every proved matcher contract has a postcondition that mentions only the pure function sem of (selector, tree, target). The per-call state is handled '
                'explicitly: the hub proof includes the frame obligations that self.namespaces and self.iframe_restrict equal their entry values on every path, and the '
-               'memo tables are covered by a representation invariant (every memoised (form, button) pair is that form\'s default button; established by __init__, '
-               'required and ensured by every matcher method and every loop, preserved by match_default when it appends - via two induction lemmas) so that a '
-               'memoised answer equals the recomputed one. F2: no function of css_match.py writes to a tree node.')
-LEVEL_TEXT = EXPLANATION + ' The :lang and :indeterminate tables are covered by the same mechanism only up to an abstract invariant (their functions are still under assumed contracts; bounded history sweep).'
+               'three memo tables are covered by a representation invariant each (every memoised (form, button) pair is that form\'s default button; every memoised '
+               '(top node, language) pair is that document\'s content-language pragma; every memoised (owner, name, verdict) triple is the verdict of that radio group whichever '
+               'element asked), established by __init__, required and ensured by every matcher method and every loop, preserved by match_default / match_lang / match_indeterminate '
+               'when they append - via base/step induction lemmas - so that a memoised answer equals the recomputed one. F2: no function of css_match.py writes to a tree node.')
+LEVEL_TEXT = EXPLANATION + ' The radio-group table needs the element asking not to be a checked member itself: see the assumption on match_indeterminate.'
